@@ -118,8 +118,17 @@ func build(w world) ech.ResolveResult {
 			h.IPv6Hint = append(make([]net.IP, 0, 3), append(net.IP{}, v6h...))
 			h.IPv6Hint[:3][1], h.IPv6Hint[:3][2] = net.IP{9, 9, 9, 9}, net.IP{9, 9, 9, 9}
 		}
+		if s.Hints&4 != 0 {
+			// entries whose byte length is not the one of their list's family: a 16-byte (IPv4-mapped) value among the ipv4 hints,
+			// a 4-byte value among the ipv6 hints (a result built by hand with net.ParseIP / To4); the family of an address is what
+			// its length says, whichever list it stands in
+			h.IPv4Hint = append(h.IPv4Hint, append(net.IP{}, v6m...))
+			h.IPv6Hint = append(h.IPv6Hint, append(net.IP{}, v4b...))
+		}
 		if s.ECH > 0 {
 			h.ECH = []byte{0, byte(s.ECH), 0xec}
+		} else if s.ECH < 0 {
+			h.ECH = []byte{} // an ech parameter of length zero: present, empty
 		}
 		a := alpnDomain[s.ALPN]
 		h.NoDefaultALPN = a.nodef
@@ -175,6 +184,14 @@ type tgt struct {
 	ALPN string // sorted set
 }
 
+// echKey tells an absent list (nil) from one that is present and empty: Dial decides "this record has ECH" by that difference
+func echKey(b []byte) string {
+	if b == nil {
+		return "absent"
+	}
+	return fmt.Sprintf("present:%x", b)
+}
+
 func alpnSet(l []string) string {
 	m := map[string]bool{}
 	for _, p := range l {
@@ -216,7 +233,7 @@ func reference(w world, hintsForEmptyTarget bool) []tgt {
 			return
 		}
 		seen[ap] = true
-		out = append(out, tgt{ap, fmt.Sprintf("%x", echList), alpnSet(alpn)})
+		out = append(out, tgt{ap, echKey(echList), alpnSet(alpn)})
 	}
 	for _, h := range r.HTTPS {
 		if h.Priority == 0 {
@@ -274,7 +291,7 @@ func collectSeq(seq func(func(ech.Target) bool), stop int) (got []tgt, callsAfte
 	defer func() {
 		got = nil
 		for _, t := range kept {
-			got = append(got, tgt{t.Address.String(), fmt.Sprintf("%x", t.ECH), alpnSet(t.ALPN)})
+			got = append(got, tgt{t.Address.String(), echKey(t.ECH), alpnSet(t.ALPN)})
 		}
 	}()
 	seq(func(t ech.Target) bool {
@@ -322,7 +339,7 @@ func evalWorld(r *ev.Run, w world) {
 		var outer, innerAtFirst []tgt
 		first := true
 		seq(func(t ech.Target) bool {
-			outer = append(outer, tgt{t.Address.String(), fmt.Sprintf("%x", t.ECH), alpnSet(t.ALPN)})
+			outer = append(outer, tgt{t.Address.String(), echKey(t.ECH), alpnSet(t.ALPN)})
 			if first {
 				first = false
 				innerAtFirst, _ = collectSeq(seq, -1)
@@ -388,6 +405,24 @@ func evalWorld(r *ev.Run, w world) {
 		}
 		r.Violation(key, fmt.Sprintf("targets differ from the reference:\n got  %v\n want %v", got, want), w)
 	}
+	// ... and when every record takes the default protocol (the list handed out is then made for the occasion, not the record's
+	// own), ranging again over the SAME sequence value after the consumer edited what it got gives the reference targets too
+	allDefault := true
+	for _, rc := range w.Recs {
+		allDefault = allDefault && !alpnDomain[rc.ALPN].nodef
+	}
+	if w.Stop < 0 && len(got) > 0 && allDefault {
+		seq2 := res.Targets(w.Network)
+		seq2(func(t ech.Target) bool {
+			for i := range t.ALPN {
+				t.ALPN[i] = "scribbled-by-consumer"
+			}
+			return true
+		})
+		if again, _ := collectSeq(seq2, -1); !reflect.DeepEqual(again, got) {
+			r.Violation("impure:same-sequence-after-consumer-edits", fmt.Sprintf("a consumer edited the ALPN lists it was handed and ranged over the same sequence value again: %v (a fresh call gave %v)", again, got), w)
+		}
+	}
 	// a consumer may do what it likes with the targets it was handed (sort the ALPN list, overwrite entries): an enumeration of
 	// ANOTHER result built from the same description still gives the reference targets (nothing is shared between results
 	// through package-level storage)
@@ -437,6 +472,14 @@ func Run(r *ev.Run) {
 		return world{Recs: []recSpec{{d[0], targets[d[1]], recPorts[d[2]], d[3], d[4], d[5]}}, Addr: d[6], Addl: d[7], Port: ports[d[8]], Network: networks[d[9]], Stop: stops[d[10]]}
 	})
 	sizes = append(sizes, p1.Size())
+
+	// family H: one service record whose hint lists hold entries of the other byte length, and/or an empty-but-present ECH list
+	pH := enum.Product{2, 4, 2, 2, 2, len(networks)}
+	worlds = append(worlds, func(i int) world {
+		d := pH.Decode(i)
+		return world{Recs: []recSpec{{1, targets[d[0]], 0, 4 + d[1], []int{-1, 1}[d[2]], d[3]}}, Addr: d[4], Addl: 2, Port: 443, Network: networks[d[5]], Stop: -1}
+	})
+	sizes = append(sizes, pH.Size())
 
 	// family 0: no record
 	p0 := enum.Product{plainAddrDomain, len(ports), len(networks), len(stops)}
